@@ -141,7 +141,10 @@ def run(ctx):
     want = {(0, 10): "coord[i, 0]", (10, 20): "coord[i, 1]", (20, 30): "coord[i, 2]", (31, 34): "element", (36, 39): "charge"}
     rsl = reader_slices(rd)
     for (a, b), what in want.items():
-        ctx.need((a, b) in rsl, f"reader slice [{a}:{b}] of the atom line")
+        if not ctx.ob("R1.atom-columns-read", CTAB, "_read_structure_from_ctab_v2000", f"line[{a}:{b}]", (a, b) in rsl,
+                      f"the V2000 writer puts {what} into the fixed columns {a}..{b} (adjacent fields may touch without a blank): "
+                      f"the reader must take exactly that slice, it reads {sorted(rsl)}", rd.lineno):
+            continue
         hit = [k for o, w, k in atom_fields if (o, o + w) == (a, b) and k[0] == "val"]
         ctx.ob("R1.atom-columns", CTAB, "_write_structure_to_ctab_v2000", f"[{a}:{b}] <- {hit[0][1] if hit else None}",
                bool(hit) and what in hit[0][1].replace("CHARGE_MAPPING_REV.get(charge", "charge"),
@@ -441,6 +444,9 @@ def run(ctx):
     sf = sd.methods("SDFile")
     lazy.check_getitem_stores(ctx, "R5.lazy-parse-stored", SDF, "SDFile", sf["__getitem__"])
     lazy.check_eq_through_getitem(ctx, "R5.eq-through-getitem", SDF, "SDFile", sf["__eq__"])
+    rec_methods = [(n.name, n) for n in sd.cls("SDRecord").body if isinstance(n, ast.FunctionDef)]
+    n_lazy = lazy.check_lazy_attributes(ctx, "R5.lazy-parse-stored", SDF, "SDRecord", rec_methods)
+    ctx.floor("R5.lazy-attributes", n_lazy, 2)
     # record names / order
     ctx.ob("R5.record-name", SDF, "SDFile.__setitem__", "record.header.mol_name = key",
            "record.header.mol_name = key" in ast.unparse(sf["__setitem__"]) and "record.header.mol_name = mol_name" in ast.unparse(sf["__init__"]),
@@ -448,6 +454,8 @@ def run(ctx):
 
 
 MUTANTS = [
+    Mutant("record-header-not-cached", SDF, "                self._header = Header.deserialize(self._header)", "                return Header.deserialize(self._header)", "R5.lazy-parse-stored"),
+    Mutant("v2000-coords-by-split", CTAB, "        atoms.coord[i, 0] = float(line[0:10])", "        atoms.coord[i, 0] = float(line[0:30].split()[0])", "R1.atom-columns-read"),
     Mutant("element-field-width", CTAB, 'f" {atoms.element[i].capitalize():3}"', 'f" {atoms.element[i].capitalize():4}"', "R1.atom-columns"),
     Mutant("charge-table-swapped", CTAB, "CHARGE_MAPPING = {0: 0, 1: 3, 2: 2, 3: 1, 5: -1, 6: -2, 7: -3}", "CHARGE_MAPPING = {0: 0, 1: 3, 2: 2, 3: 1, 5: -2, 6: -1, 7: -3}", "R3.charge-table"),
     Mutant("compat-limit", CTAB, "return n_atoms < 1000 and n_bonds < 1000", "return n_atoms < 1000 and n_bonds <= 1000", "R2.count-bound"),
